@@ -376,6 +376,26 @@ theorem step_binv (W H : Nat) (fx : Fixes) (hW : 0 < W) (b : Bar) (t : Term) (lo
     simp only [frameLines] at h
     exact ⟨drawToTerm_ne_nil _ _ _ _ _, _, rfl, h.2, h.1⟩
 
+/-- a forced draw on a terminal target is never skipped -/
+theorem draw_forced_ne_nil (b : Bar) (tt : TermTarget) (h : b.target = some tt) (now : Nat) : (b.draw true now).2 ≠ [] := by
+  unfold Bar.draw
+  simp only [h, Bool.true_or, TermTarget.drawable, if_true, Bool.not_true, Bool.false_eq_true, if_false]
+  exact drawToTerm_ne_nil _ _ _ _ _
+
+/-- **finishing always paints**: whatever the limiter and the position gate say, a `finish*` / `abandon*` /
+`finish_using_style` call on a bar with a terminal target completes a draw, after which the terminal shows the log followed
+by the rendering of the final state -/
+theorem finish_binv (W H : Nat) (fx : Fixes) (hW : 0 < W) (b : Bar) (t : Term) (logs frame : List (List Nat)) (now : Nat) (f : Finish)
+    (hB : BInv W H fx b t logs frame) (hF : FrameOk W H (b.finishUsing now f).1) :
+    (b.finishUsing now f).2 ≠ [] ∧
+    BInv W H fx (b.finishUsing now f).1 (t.execAll (b.finishUsing now f).2) logs (frameRows (b.finishUsing now f).1) := by
+  obtain ⟨tt, htt, _, _⟩ := hB
+  rw [finishUsing_finBar] at hF ⊢
+  have hne := draw_forced_ne_nil (finBar b f) tt (by rw [finBar_target, htt]) now
+  rcases upd_draw_binv W H fx hW b (finBar b f) t logs frame ⟨tt, htt, by assumption, by assumption⟩ (finBar_target b f) true now hF with h | h
+  · exact absurd h.1 hne
+  · exact h
+
 instance (l : List (List Nat)) : Decidable (firstNonEmpty l) := by
   cases l with
   | nil => exact isTrue trivial
